@@ -41,6 +41,7 @@ fn triple(ty: &Ty, vs: usize) -> [Val; 3] {
             };
             [Val::F64(t[0]), Val::F64(t[1]), Val::F64(t[2])]
         }
+        Ty::Scaled { scale, offset, .. } if *scale == 0.001 && *offset == 2.5 => [Val::Scaled(-18478), Val::Scaled([7, 1, -7, 0, 3][vs % 5]), Val::Scaled(1001)],
         Ty::Int { min, max } | Ty::Scaled { min, max, .. } => {
             let (lo, hi) = (*min as i128, *max as i128);
             let t: [i128; 3] = if hi - lo < 2 {
@@ -60,12 +61,17 @@ fn triple(ty: &Ty, vs: usize) -> [Val; 3] {
 
 const ORDERS: [[usize; 3]; 6] = [[0, 1, 2], [0, 2, 1], [1, 0, 2], [1, 2, 0], [2, 0, 1], [2, 1, 0]];
 
+/// number of coordinate types (the last one is a scaled integer with a non-zero offset whose
+/// products with the scale are not exact: value * scale + offset must be rounded twice, as the
+/// reader does it)
+const N_COORD_TYPES: usize = 6;
 fn coord_type(k: usize) -> Ty {
     match k {
         0 => F32,
         1 => F64,
         2 => Ty::Scaled { min: -100_000, max: 100_000, scale: 0.001, offset: 0.0 },
         3 => Ty::Scaled { min: -7, max: 1 << 40, scale: -0.5, offset: 3.0 },
+        5 => Ty::Scaled { min: -100_000, max: 100_000, scale: 0.001, offset: 2.5 },
         _ => Ty::Int { min: -100, max: 100 },
     }
 }
@@ -119,10 +125,10 @@ pub fn bounds(ctx: &Ctx) {
     let groups = ctx.pick("groups", 16); // bit0 row/col, bit1 return, bit2 colour, bit3 intensity
     let seq = ctx.pick("seq", 4); // 0 empty, 1 single, 2 constant x3, 3 three distinct values
     // deviation-counted: types, value set, overrides, per-attribute orders
-    let ct = ctx.choose("coord-type", 5);
+    let ct = ctx.choose("coord-type", N_COORD_TYPES);
     // Y and Z (elevation and range) may have a type of their own
-    let cty = (ct + ctx.choose("y-type-shift", 5)) % 5;
-    let ctz = (ct + ctx.choose("z-type-shift", 5)) % 5;
+    let cty = (ct + ctx.choose("y-type-shift", N_COORD_TYPES)) % N_COORD_TYPES;
+    let ctz = (ct + ctx.choose("z-type-shift", N_COORD_TYPES)) % N_COORD_TYPES;
     let st = ctx.choose("spherical-type", 4);
     let it = ctx.choose("index-type", 3);
     let at = ctx.choose("intensity-type", 6);
